@@ -99,7 +99,7 @@ theorem describe_line (kwd : Bytes) (hw : Word kwd) (h : Hook) (hk : findHook kw
     (comps : List Bytes) (hc : ∀ c ∈ comps, GoodName c) (n : Node) (hn : n.Wf)
     (xt xe : List Bytes) (hx : Encs xt xe) (hxs : ∀ e ∈ xe, Safe e)
     (hxl : ∀ e, xe.getLast? = some e → NoCRLast e)
-    (hroot : comps ≠ [] ∨ h.allowRoot = true) (hex : h.needExtra = true → xt ≠ []) (rest : Bytes) :
+    (hroot : comps ≠ [] ∨ h.allowRoot = true) (hex : h.needExtra = true → xt ≠ []) (hfl : h.flags = 0) (rest : Bytes) :
     fstreeFromFile {} (kwd ++ [SP] ++ printName (joinSlash comps) ++ printPerm n ++ spTail xe ++ LF :: rest) =
       match (match h.cb with
         | .generic => addGeneric { name := joinSlash comps, mode := n.perm ||| h.mode, uid := n.uid, gid := n.gid, rdev := 0, extra := none } xt
@@ -174,7 +174,7 @@ theorem describe_line (kwd : Bytes) (hw : Word kwd) (h : Hook) (hk : findHook kw
   have hpu : parseNum 10 0 0x0FFFFFFFF u = .ok n.uid := parseNum_printNat 10 (Or.inr rfl) _ n.uid (by omega) (by omega) (by omega)
   have hpg : parseNum 10 0 0x0FFFFFFFF g = .ok n.gid := parseNum_printNat 10 (Or.inr rfl) _ n.gid (by omega) (by omega) (by omega)
   have := handleLine_known {} h kwd (pathTok P) P m u g xt n.perm n.uid n.gid hk hcanon hr hpm hpu hpg hex rfl rfl
-  simp only [List.cons_append, List.nil_append] at this ⊢
+  simp only [List.cons_append, List.nil_append, hfl] at this ⊢
   rw [this]
   rfl
 
